@@ -381,6 +381,95 @@ fn controls(rep: &mut Report) {
     }
 }
 
+
+/// The items of one run spread over several directory arguments whose names are related as text (one a prefix of the
+/// other) but not as paths: every ordered selection of up to three of five sibling directories, through the binary,
+/// relative and absolute arguments. The emitted definitions are those of the selected directories, each once.
+fn directory_arguments_family(rep: &mut Report) {
+    use crate::cli::{self, par_map, run_cli, s, Scratch};
+    if !cli::bin_available() {
+        rep.machinery(format!("hooks-on CLI binary missing at {}", cli::BIN));
+        return;
+    }
+    const DIRS: [(&str, &str, &str); 5] = [
+        ("models", "Base", "#[typeshare]\npub struct Base { pub b: u32 }\n"),
+        ("models_ext", "Extended", "#[typeshare]\npub struct Extended { pub e: Vec<u32> }\n#[typeshare]\npub type Extras = Vec<Extended>;\n"),
+        ("modelsx", "Crossed", "#[typeshare]\n#[serde(tag = \"t\", content = \"c\")]\npub enum Crossed { One(u32), Two }\n"),
+        ("api", "Request", "#[typeshare]\npub struct Request { pub r: String }\n"),
+        ("api_v2", "RequestV2", "#[typeshare]\npub struct RequestV2 { pub r: String, pub n: u32 }\n"),
+    ];
+    let mut seqs: Vec<Vec<usize>> = Vec::new();
+    for a in 0..5 {
+        seqs.push(vec![a]);
+        for b in 0..5 {
+            if b != a {
+                seqs.push(vec![a, b]);
+                for c in 0..5 {
+                    if c != a && c != b {
+                        seqs.push(vec![a, b, c]);
+                    }
+                }
+            }
+        }
+    }
+    let langs: Vec<Lang> = if rep.thorough() { crate::pipeline::ALL_LANGS.to_vec() } else { vec![Lang::TypeScript, Lang::Go, Lang::Python] };
+    let mut jobs = Vec::new();
+    for sq in &seqs {
+        for &lang in &langs {
+            for absolute in [false, true] {
+                jobs.push((sq.clone(), lang, absolute));
+            }
+        }
+    }
+    let results = par_map(&jobs, report::threads(), |(sq, lang, absolute)| {
+        let sc = Scratch::new("c11dirs");
+        for (d, _, src) in DIRS {
+            sc.write(&format!("ws/{d}/src/lib.rs"), src.as_bytes());
+        }
+        let out = sc.path(&format!("out/types.{}", lang.ext()));
+        sc.mkdir("out");
+        let mut args = cli::lang_args(*lang);
+        args.extend([s("-o"), out.to_string_lossy().into_owned()]);
+        for i in sq {
+            args.push(if *absolute { sc.path(&format!("ws/{}", DIRS[*i].0)).to_string_lossy().into_owned() } else { DIRS[*i].0.to_string() });
+        }
+        let r = run_cli(&args, &sc.path("ws"), &[], cli::TIMEOUT);
+        (r.class(), r.stderr.chars().take(300).collect::<String>(), std::fs::read_to_string(&out).unwrap_or_default(), args)
+    });
+    let mut outcomes = std::collections::BTreeSet::new();
+    for ((sq, lang, absolute), (class, stderr, text, argv)) in jobs.iter().zip(results.iter()) {
+        let shape = format!("args={}|{}", sq.len(), if *absolute { "absolute" } else { "relative" });
+        let names: Vec<&str> = sq.iter().map(|i| DIRS[*i].0).collect();
+        if *class != "ok" {
+            rep.vios.add(Violation { sig: format!("C11|{}|directory-arguments|run-failed:{class}|{shape}", lang.name()), detail: json!({"argv": argv, "directories": names, "stderr": stderr}) });
+            continue;
+        }
+        let of = match crate::extract::extract(*lang, text) {
+            Ok(of) => of,
+            Err(e) => {
+                rep.vios.add(Violation { sig: format!("C11|{}|directory-arguments|output-unreadable|{shape}", lang.name()), detail: json!({"argv": argv, "directories": names, "output": text, "reader": e.msg()}) });
+                continue;
+            }
+        };
+        for (i, (d, main, _)) in DIRS.iter().enumerate() {
+            let want = sq.contains(&i) as usize;
+            let got = of.defs.iter().filter(|x| x.name() == *main).count();
+            outcomes.insert(format!("{}|{want}|{got}", lang.name()));
+            if got != want {
+                // which other selected directory's name is a textual prefix of this one (or the reverse)
+                let related = sq.iter().any(|j| *j != i && (d.starts_with(DIRS[*j].0) || DIRS[*j].0.starts_with(d)));
+                rep.vios.add(Violation {
+                    sig: format!("C11|{}|directory-arguments|{}|{shape}|a-selected-sibling-shares-a-name-prefix={}", lang.name(), if got < want { "definition-lost" } else if want == 0 { "definition-of-an-unselected-directory" } else { "definition-duplicated" }, related as u8),
+                    detail: json!({"argv": argv, "directories": names, "directory": d, "definition": main, "expected_count": want, "observed_count": got, "output": text}),
+                });
+            }
+        }
+    }
+    rep.cov("directory_arguments", json!({"sibling_directories": DIRS.iter().map(|d| d.0).collect::<Vec<_>>(), "ordered_selections": seqs.len(), "argument_spellings": ["relative", "absolute"], "languages": langs.len(), "process_runs": jobs.len(), "distinct_outcomes": outcomes.len()}));
+    rep.cov_add("evaluations", jobs.len() as u64 * 5);
+    rep.cov_add("traces_validated_against_impl", jobs.len() as u64);
+}
+
 pub fn run(args: &[String]) -> i32 {
     let tier = report::tier_from_env(args);
     let mut rep = Report::new("C11", &tier);
@@ -677,6 +766,7 @@ pub fn run(args: &[String]) -> i32 {
             Err(e) => rep.machinery(e),
         }
     }
+    directory_arguments_family(&mut rep);
     require_nonvacuous(&mut rep);
     rep.cov("rule", json!("every labelled digraph (self loops included) on ≤ 3 nodes for every edge carrier and every node-kind assignment, every digraph on 4 nodes, and seven parametric families up to 12 nodes under every rotation of the labeling; each graph is rendered as items referring to each other, generated for the five backends that share the ordering, and the definition order recovered from the output is checked: permutation (every item exactly once) always, topological order when the graph is acyclic. non-trivial = graph has at least one edge."));
     rep.assume("node names N00.. fix the order in which typeshare feeds items to its sort; all labelings are covered because all edge sets are enumerated");
